@@ -1,11 +1,11 @@
 package main
 
 import (
-	"strings"
 	"fmt"
 	"go/token"
 	"go/types"
 	"sort"
+	"strings"
 
 	"golang.org/x/tools/go/ssa"
 )
@@ -328,7 +328,7 @@ func (c *Ctx) enterLoopHead(st *State, fr *Frame, li *loopInfo, pred *ssa.BasicB
 	directOnly := c.directStores
 	for _, key := range sortedCellKeys(cells) {
 		cur, ok := st.cells[key]
-		var t interface{ }
+		var t interface{}
 		_ = t
 		switch k := key.(type) {
 		case *ssa.Alloc:
